@@ -528,9 +528,9 @@ def run(tier):
     else:
         graph = Graph(res)
         if quick:
-            new, info = _schedules(graph, 130, 40, 40, 250, rnd, next_id)
+            new, info = _schedules(graph, 130, 30, 30, 150, rnd, next_id)
         else:
-            new, info = _schedules(graph, 13000, 400, 400, 6000, rnd, next_id)
+            new, info = _schedules(graph, 2000, 400, 400, 3000, rnd, next_id)
         cases += new
         sched_info[cfg] = info
     cov["schedules"] = sched_info
